@@ -52,7 +52,7 @@ pub fn run(ctx: &Ctx) -> Outcome {
                 if fk {
                     acc.known_hit("FK", || format!("{} on {:?}: {}", s, t, what));
                     true
-                } else if fj_listed && h.aux_mismatch > 0 {
+                } else if fj_listed && h.aux_mismatch > 0 && p.has_cond() {
                     acc.known_hit("FJ", || format!("{} on {:?}: {}", s, t, what));
                     true
                 } else {
